@@ -149,6 +149,30 @@ class Obligation:
         return (self.name, self.where, self.decisions)
 
 
+_hq_cache = {}
+
+
+def _has_quantifier(f):
+    k = f.get_id()
+    if k in _hq_cache:
+        return _hq_cache[k]
+    seen = set()
+    stack = [f]
+    res = False
+    while stack:
+        g = stack.pop()
+        if g.get_id() in seen:
+            continue
+        seen.add(g.get_id())
+        if z3.is_quantifier(g):
+            res = True
+            break
+        if z3.is_app(g):
+            stack.extend(g.children())
+    _hq_cache[k] = res
+    return res
+
+
 def z3bool(v):
     return isinstance(v, ZV) and v.t.sort() == z3.BoolSort()
 
@@ -193,7 +217,19 @@ class Executor:
         return '%s!%d' % (base, n)
 
     def fresh(self, T, base):
-        return T.fresh(self.fresh_name(base))
+        v = T.fresh(self.fresh_name(base))
+        self.assume_shape(v)
+        return v
+
+    def assume_shape(self, v):
+        """Lengths of lists are non-negative."""
+        if isinstance(v, ListV):
+            self.assume(v.n >= 0)
+        elif isinstance(v, TupV):
+            for x in v.items:
+                self.assume_shape(x)
+        elif isinstance(v, OptV):
+            self.assume_shape(v.val)
 
     def assume(self, f):
         if isinstance(f, bool):
@@ -217,10 +253,14 @@ class Executor:
             self.assume(goal)
 
     def feasible(self, f):
+        """Sound pruning only: the path is dropped when the QUANTIFIER-FREE part
+        of the path condition already contradicts the branch (quantified facts are
+        ignored here: they mostly time out and pruning is an optimisation)."""
         s = z3.Solver()
         s.set('timeout', self.feas_timeout)
         for p in self.pc:
-            s.add(p)
+            if not _has_quantifier(p):
+                s.add(p)
         s.add(f)
         r = s.check()
         return r != z3.unsat
@@ -306,6 +346,21 @@ class Executor:
             self.spec.note_allocated(self, v.t)
         return v
 
+    def typed_store(self, what, thunk):
+        """Run a store; a value whose sort the declared field/container type does
+        not admit (e.g. a strong handler reference where only weak references are
+        declared) is a failed ownership obligation, not a checker error."""
+        try:
+            return thunk()
+        except (OutOfSubset, AssertionError) as e:
+            if isinstance(e, OutOfSubset) and 'sort mismatch' not in str(e) \
+                    and 'cannot coerce' not in str(e) and 'cannot pack' not in str(e):
+                raise
+            self.oblige('%s:stored-value-sort[%s]' % (self.fn_name, what), z3.BoolVal(False),
+                        kind='ownership', role='prop', assume_after=False,
+                        info={'detail': str(e)[:200]})
+            raise PathEnd()
+
     def adapt(self, v, T):
         """A tuple/list built from a duplicate-free source stored where the model
         keeps a set (see specs: tuple of dict items)."""
@@ -333,7 +388,8 @@ class Executor:
             self.unsupported('store to class-level field %s.%s' % (sn, field))
         if isinstance(v, Loc) and isinstance(T, (TSet, TDict, TList)):
             self.unsupported('aliasing store of a heap container into %s.%s' % (sn, field))
-        self.write_field_raw(sn, field, T, obj_t, v)
+        self.typed_store('%s.%s' % (sn, field),
+                         lambda: self.write_field_raw(sn, field, T, obj_t, v))
 
     def snapshot(self):
         return {'heap': dict(self.heap), 'ghost': dict(self.ghost)}
@@ -485,7 +541,7 @@ class Executor:
     def st_Delete(self, st, fr):
         for t in st.targets:
             if isinstance(t, ast.Subscript):
-                cont = self.ev(t.value, fr)
+                cont = self.ev_ref(t.value, fr)
                 key = self.ev(t.slice, fr)
                 self.prelude.del_item(self, cont, key, t)
             elif isinstance(t, ast.Name):
@@ -513,7 +569,7 @@ class Executor:
             obj = deref(self.ev(tgt.value, fr))
             self.set_attr(obj, tgt.attr, v, tgt)
         elif isinstance(tgt, ast.Subscript):
-            cont = self.ev(tgt.value, fr)
+            cont = self.ev_ref(tgt.value, fr)
             if isinstance(tgt.slice, ast.Slice):
                 self.prelude.set_slice(self, cont, tgt.slice, v, fr, tgt)
                 return
@@ -744,6 +800,8 @@ class Executor:
         v = self.prelude.external(self, dotted)
         if v is not None:
             return v
+        if dotted.split('.')[0] in ('typing', 'abc') and '.' in dotted:
+            return ClassV(dotted.split('.')[-1])
         return ModuleV(dotted)
 
     def ev_Tuple(self, node, fr):
@@ -1098,8 +1156,22 @@ class Executor:
         self.unsupported('starred expression here', node)
 
     # ------------------------------------------------------------- attributes
+    def ev_ref(self, node, fr):
+        """Evaluate an expression used as the receiver of a possibly mutating
+        operation: a local variable holding a container value becomes a location."""
+        if isinstance(node, ast.Name):
+            f, v = fr.lookup(node.id)
+            if f is not None and (isinstance(v, (SetV, DictV, ListV))
+                                  or (isinstance(v, TupV) and v.is_list)
+                                  or (isinstance(v, Con) and isinstance(v.v, (dict, set, list)))):
+                name = node.id
+                return Loc(lambda f=f, name=name: f.vars[name],
+                           lambda nv, f=f, name=name: f.vars.__setitem__(name, nv),
+                           None, 'local ' + name)
+        return self.ev(node, fr)
+
     def ev_Attribute(self, node, fr):
-        obj = self.ev(node.value, fr)
+        obj = self.ev_ref(node.value, fr)
         return self.get_attr(obj, node.attr, node)
 
     def get_attr(self, obj, attr, node=None):
